@@ -56,6 +56,7 @@ RetJudge(ln, adm, okSet) ==
            /\ J("C19") => \* the nesting limit: MEMERROR exactly where level L+1 would open; deeper input never accepted
                           /\ (\E a \in adm : a.code = "mem") => (~ln.ok /\ (refusals = 0 => ln.code \in {a.code : a \in adm}))
                           /\ (ln.ok /\ refusals = 0) => (\E a \in okSet : TreeEqJ(ln.tree, a.tree[1]) /\ Depth(a.tree[1]) <= TraceL)
+                          /\ (okSet # {} /\ refusals = 0) => ln.ok            \* input whose nesting never exceeds L is decoded (memory permitting)
                           /\ (refusals = 0 /\ ~ln.ok /\ ln.code = "mem") => (\E a \in adm : a.code = "mem" /\ Eq(ln.pos, BE(a.pos, 4)))
 
 (* Short inputs are logged whole: the verdict is then computed from ALL the bytes (tokenisation + grammar), not only
